@@ -378,6 +378,8 @@ class Env:
         self.cms = {}
         self.fault_used = False
         self.gens = {}
+        self.ghost = {}
+        self.last_key = None
         self.block_exc = {}
         self.trace = []          # (event description, answer description)
         self.vals = {}
@@ -617,7 +619,7 @@ class Verifier:
             a = job.mk(ctx, env)
         self.skip_cut_once = snap is not None
         impl_fn = self.resolve(self.impl_prog, job.impl)
-        ref_fn = self.resolve(self.ref_prog, job.ref)
+        ref_fn = self.resolve(self.ref_prog, job.ref) if job.ref is not None else None
         self.open_cuts = {}
         self.seen_keys = {}
         self.seen_akeys = {}
@@ -695,7 +697,14 @@ class Verifier:
                     return
 
         impl = start(impl_i, impl_fn, a["iargs"], a.get("ikw", {}))
-        ref = start(ref_i, ref_fn, a["rargs"], a.get("rkw", {}))
+        if job.ref is None:
+            def idle():
+                while True:
+                    yield Ev("Idle")
+            ref = idle()
+            ref_i.roots = {}
+        else:
+            ref = start(ref_i, ref_fn, a["rargs"], a.get("rkw", {}))
 
         def adv(g, resp, is_impl):
             try:
@@ -790,6 +799,10 @@ class Verifier:
             return ("raise", e)
         if ev.kind == "Call":
             fn = ev.payload[0]
+            if job.opts.get("ghost_lru") and "ghost" in self.impl_i.roots:
+                from pyvc.interp import mk_int, as_int
+                g = self.impl_i.roots["ghost"]
+                g["invocations"] = mk_int(as_int(g["invocations"]) + 1)      # ghost: the wrapped function is invoked
             opts = ["ret"] + (list(fk) if faults else [])
             c = opts[ctx.choose(len(opts), f"call {fn.name}")] if len(opts) > 1 else "ret"
             d = f"call {fn.name}({','.join(describe(x) for x in ev.payload[1])})"
@@ -798,6 +811,8 @@ class Verifier:
                 if kind == "awaitable":
                     v = Opaque(ctx.fresh(Val, f"{fn.name}_result"))
                     aw = EnvAwaitable(f"{fn.name}()#{ctx.evseq}", payload=v)
+                    if job.opts.get("ghost_lru"):
+                        aw.call_args = tuple(ev.payload[1])
                     self.trace.append((d, f"ret awaitable of {v.t}"))
                     return ("ret", aw)
                 if kind == "envgen":
@@ -838,11 +853,17 @@ class Verifier:
                 env.fault_used = True
             return (c, None)
         if ev.kind in ("AwaitVal", "Await"):
+            hook = job.opts.get("at_suspension")
+            if hook is not None:
+                hook(self, ctx, ev)
             opts = ["ret"] + (list(fk) if faults else [])
             c = opts[ctx.choose(len(opts), "await")] if len(opts) > 1 else "ret"
             if c == "ret":
                 pl = getattr(ev.payload[0], "payload", None) if ev.kind == "Await" else None
                 v = pl if pl is not None else Opaque(ctx.fresh(Val, "awaited"))
+                if job.opts.get("ghost_lru") and getattr(ev.payload[0], "call_args", None):
+                    from contracts.jobs_lru import produced
+                    ctx.assume(produced(ev.payload[0].call_args[0].t, v.t))
                 self.trace.append((f"await {describe(ev.payload[0])}", f"ret {describe(v)}"))
                 return ("ret", v)
             env.fault_used = True
@@ -1075,6 +1096,15 @@ class Verifier:
 
     def match(self, ctx, ie, re_):
         job = self.job
+        if job.ref is None:
+            # no reference: the job states its claims as invariants (protocol.expect), checked after every operation
+            if ie.kind == "Finished":
+                return False
+            ok = True
+            if ie.kind == "Result" and hasattr(job.protocol, "expect"):
+                for oname, cond, why in job.protocol.expect(self, ie.payload[0], ie.payload[1]):
+                    ok &= bool(self.prove(ctx, f"{job.name}/{oname}", "og-inv", cond, detail=why))
+            return ok       # a state violating the invariant is not explored further
         nm = f"{job.name}/event-match/{self.ev_sites(ie, re_)}"
         if ie.kind == "Finished" or re_.kind == "Finished":
             return False
@@ -1190,6 +1220,9 @@ class Verifier:
 
     def post_done(self, ctx, ie, re_):
         job = self.job
+        if job.ref is None:
+            self.sample(ctx, "done")
+            return
         (ik, iv), (rk, rv) = ie.payload[0], re_.payload[0]
         nm = f"{job.name}/outcome-match"
         if ik != rk:
